@@ -614,8 +614,8 @@ def oracle_transform(line, ans, rng):
         return "transformed CFG is not well formed: " + w
     lowered = set(P.lower) if q in ("lower", "pipe") else set()
     r0 = random.Random(zlib.crc32(line.encode()))
-    ptexts = {t for b in P.text for t in P.text[b]}
-    qtexts = {t for b in Q.text for t in Q.text[b]}
+    def count(T, t):
+        return sum(x == t for b in T.text for x in T.text[b])
     for t in range(24):
         s0 = [r0.choice(POOL) for _ in range(P.nv)]
         seed = r0.randrange(1 << 30)
@@ -631,7 +631,7 @@ def oracle_transform(line, ans, rng):
         st, obs, seq, fin, _ = run_leader(Q, list(s0), seed)
         if st == "done":
             st2, obs2, stuck = run_follower(P, list(s0), seed, seq, set(Q.blocks))
-            if st2 == "stuck" and stuck is not None and stuck not in qtexts:
+            if st2 == "stuck" and stuck is not None and count(Q, stuck) < count(P, stuck):
                 continue        # proviso: a removed statement fails in the original
             if st2 == "limit":
                 continue
